@@ -444,3 +444,58 @@ func digestBytes(bs [][]byte) []byte {
 }
 
 var _ = context.Background
+
+// Fork returns an independent fake execution layer with the same block tree and pointers.
+func (el *ELSim) Fork() (*ELSim, error) {
+	el.mu.Lock()
+	defer el.mu.Unlock()
+	var gen *engine.ExecutableData
+	for _, b := range el.blocks {
+		if b.Data.Number == 0 {
+			d := b.Data
+			gen = &d
+		}
+	}
+	f, err := NewELSim(gen)
+	if err != nil {
+		return nil, err
+	}
+	for h, b := range el.blocks {
+		c := *b
+		f.blocks[h] = &c
+	}
+	f.Head, f.Safe, f.Finalized = el.Head, el.Safe, el.Finalized
+	f.Canonical = el.Canonical
+	f.GasAmount = new(big.Int).Set(el.GasAmount)
+	f.jobSeq = el.jobSeq
+	return f, nil
+}
+
+// BuildPayload builds a well-behaved payload on parent without going through the RPC
+// interface (used by the harness to assemble proposals of other proposers and mutants).
+func (el *ELSim) BuildPayload(parent common.Hash, feeRecipient common.Address, beacon common.Hash, goatTxs [][]byte, timestamp uint64) (*engine.ExecutableData, [][]byte, error) {
+	el.mu.Lock()
+	defer el.mu.Unlock()
+	p, ok := el.blocks[parent]
+	if !ok {
+		return nil, nil, errors.New("unknown parent")
+	}
+	d := engine.ExecutableData{ParentHash: parent, FeeRecipient: feeRecipient, LogsBloom: make([]byte, 256), Number: p.Data.Number + 1,
+		GasLimit: 30_000_000, Timestamp: timestamp, BaseFeePerGas: big.NewInt(7)}
+	if el.Canonical || timestamp == 0 {
+		d.Timestamp = p.Data.Timestamp + 1
+	}
+	d.Random = common.BytesToHash(p.Data.BlockHash[:])
+	d.Transactions = [][]byte{}
+	d.Transactions = append(d.Transactions, goatTxs...)
+	d.Transactions = append(d.Transactions, el.UserTxs...)
+	d.ExtraData = make([]byte, params.GoatHeaderExtraLengthV0)
+	d.ExtraData[0] = byte(len(goatTxs))
+	var zero uint64
+	d.BlobGasUsed, d.ExcessBlobGas = &zero, &zero
+	reqs := el.requests(d.Number)
+	d.StateRoot = common.BytesToHash([]byte("state"))
+	d.ReceiptsRoot = common.BytesToHash([]byte("receipts"))
+	d.BlockHash = ComputeBlockHash(&d, beacon, reqs)
+	return &d, reqs, nil
+}
